@@ -21,15 +21,20 @@
       list each key / each contributing object once          |   C17_never_raises, C17_views_exact
    B  change handlers, daemons, timers do not start until     | C17_gate (gated worker: the state IS ready: blocker gone,
       every indexed kind has been listed and indexed once,   |   every indexed kind listed, every object first seen
-      for every interleaving of the initial listings         |   before its kind's LISTED indexed) + C17_gate_any (any
+      for every interleaving of the initial listings         |   before its kind's LISTED indexed OR its indexing raised
+                                                             |   — "indexed once" cannot hold for an object whose filter
+                                                             |   callback raises; since c050920 it no longer blocks the
+                                                             |   others, C17_gate_opens_after_raise) + C17_gate_any (any
                                                              |   worker: some earlier state was ready); every trace, every
                                                              |   worker limit.  C17_gate_partial etc. kept (weaker)
    B' (liveness side of B: the gate does open, no toggle is   | C17_gate_opens (limit = None or >= live workers per
-      leaked)                                                |   watcher; quiescent watchers) + _refuted pair:
+      leaked)                                                |   watcher; quiescent watchers; no index_resource call
+                                                             |   raised) + two _refuted pairs:
                                                              |   C17_gate_opens_limited_refuted / C17_gate_stuck_forever
-                                                             |   = known finding F11
-   not covered: deletions in a watch gap (C19); index_resource raising outside the index functions (an exception in
-   a when= filter leaks the object's toggle: observation in the manifest); watcher death/stop before its first LISTED
+                                                             |   = known finding F11 (worker_limit);
+                                                             |   C17_gate_opens_raised_refuted = known finding F1702
+                                                             |   (index_resource raises, e.g. in a when= callback)
+   not covered: deletions in a watch gap (C19); watcher death/stop before its first LISTED
    (F10 territory); float values and unhashable keys (outside the model).
    --------------------------------------------------------------------------------------------------------------- *)
 From Coq Require Import ZArith List String Bool.
@@ -247,11 +252,19 @@ Print Assumptions C17_gate_two_slots_refuse_third.
 
 (* B, gated worker: when its processing reaches process_resource_causes the operator IS ready: the blocker is gone,
    every indexed kind created so far has been listed, every object first seen before its kind's first LISTED has been
-   indexed (is past index_resource and has dropped its toggle).  Every trace, every worker limit. *)
+   through index_resource and has dropped its toggle: it was indexed (PWaiting / PPassed) or its indexing raised
+   (PFailed — then it is not indexed: the property's "indexed once" cannot hold for it).  Every trace, every worker limit. *)
 Theorem C17_gate : forall lim tr s o s',
   grun lim ginit tr = Some s -> gstep lim s (Pass o) = Some s' -> gated (ost s o) = true -> Ready s.
 Proof. exact gate_safety. Qed.
 Print Assumptions C17_gate.
+
+(* ... spelled out for one such object: indexed and waiting at the gate, indexed and passed, or its indexing raised
+   (PNew cannot carry the flag: Retire resets the record) *)
+Theorem C17_gate_early_cases : forall s o, Ready s -> early (ost s o) = true ->
+  ph (ost s o) = PWaiting \/ ph (ost s o) = PPassed \/ ph (ost s o) = PFailed \/ ph (ost s o) = PNew.
+Proof. exact ready_early_cases. Qed.
+Print Assumptions C17_gate_early_cases.
 
 (* B, any worker (also those spawned after their watcher gave up the gate): nothing passes before some state of the
    run was ready *)
@@ -268,7 +281,8 @@ Theorem C17_early_means : forall lim s r o on s', gstep lim s (SeenCheck r o on)
 Proof. exact early_means. Qed.
 Print Assumptions C17_early_means.
 
-(* B', the true half: from every reachable state with no watcher in the middle of a first event, if every watcher's
+(* B', the true half: from every reachable state with no watcher in the middle of a first event — also after any
+   number of index_resource calls that raised (label IndexRaised; finding F1702, fixed by c050920) —, if every watcher's
    scheduler has no limit or at least as many slots as it has live workers, the operator's own steps (drop the
    blocker, reach LISTED, start queued workers, finish indexing) empty the toggle set, and then every worker waiting at
    the gate passes.  No toggle is ever leaked by the protocol itself. *)
@@ -302,3 +316,18 @@ Print Assumptions C17_gate_nonvacuous.
 Example C17_stuck_nonvacuous : Stuck 2 f11_state.
 Proof. exact f11_stuck. Qed.
 Print Assumptions C17_stuck_nonvacuous.
+
+(* F1702 (fixed in /repo by c050920) as regression Examples: index_resource raises while an object's first event is
+   processed (a when= callback of the @kopf.index handler); the `finally` drops the object's toggle; after LISTED the
+   set is empty and the other object reaches process_resource_causes; the failed object is early, not indexed, and no
+   longer holds the others back (this is the PFailed case of Ready in C17_gate).  The trace is the one recorded from
+   the repaired code; before the fix the toggle stayed in the set forever (findings.d/F1702.json). *)
+Example C17_gate_opens_after_raise :
+  exists s, grun None ginit f1702_trace = Some s /\ is_on s = true /\ ph (ost s 0) = PPassed /\ ph (ost s 1) = PFailed /\
+            early (ost s 1) = true.
+Proof. exact raised_does_not_block. Qed.
+Print Assumptions C17_gate_opens_after_raise.
+Example C17_raised_then_indexed_passes :
+  exists s, grun None ginit (f1702_trace ++ [Indexed 1; Pass 1; Retire 0; Retire 1]) = Some s /\ is_on s = true /\ nseen s 0 = 0.
+Proof. exact raised_then_indexed_passes. Qed.
+Print Assumptions C17_raised_then_indexed_passes.
